@@ -150,11 +150,14 @@ impl<T: Peel> Peel for Override<T> {
     }
 }
 pub fn leaves(e: &Error) -> Vec<(String, R)> {
-    e.clone()
-        .flatten()
-        .into_iter()
-        .map(|l| (l.to_string(), l.explicit_span().and_then(span_range)))
-        .collect()
+    let mut out = vec![];
+    // several errors at once come as a bundle: how it is nested, where it is located and whether it
+    // carries a span are part of the outcome (a wrapper that holds or passes on `T`'s error holds that one)
+    if e.len() > 1 {
+        out.push((format!("<as a whole> {e}"), e.explicit_span().and_then(span_range)));
+    }
+    out.extend(e.clone().flatten().into_iter().map(|l| (l.to_string(), l.explicit_span().and_then(span_range))));
+    out
 }
 impl<T: Peel> Peel for darling::Result<T> {
     fn peel(&self, s: &mut Seen) -> String {
